@@ -652,17 +652,19 @@ where
                                 let consumed = new_remaining - final_remaining;
                                 *remaining -= consumed;
                                 src.unsplit(rem);
-                                let result = if let Some(result) = eof_result {
-                                    Ok(Some(RequestMessage {
-                                        origin: *source,
-                                        path: std::mem::take(path),
-                                        envelope: Operation::Command(result),
-                                    }))
+                                if let Some(result) = eof_result {
+                                    *state = RequestState::AfterBody {
+                                        message: Some(RequestMessage {
+                                            origin: *source,
+                                            path: std::mem::take(path),
+                                            envelope: Operation::Command(result),
+                                        }),
+                                        remaining: *remaining,
+                                    }
                                 } else {
-                                    Err(MessageDecodeError::incomplete())
-                                };
-                                *state = RequestState::ReadingHeader;
-                                break result;
+                                    *state = RequestState::ReadingHeader;
+                                    break Err(MessageDecodeError::incomplete());
+                                }
                             } else {
                                 break Ok(None);
                             }
